@@ -25,10 +25,14 @@ target('c04', ['harness/c04_interp.cpp'])
 
 RANDOM = 'lift,block_aggr,ptent_sa,rowsum'
 
+SMALL = 'exh_sym6,exh_dir4,' + RANDOM
+
 def c04_jobs(tier):
     q = tier == 'quick'
-    js = [job('interp-plain-t1', 'c04', 'plain', threads=1, shards=8, timeout=3600),
-          job('interp-asan-t1', 'c04', 'asan', threads=1, shards=8, timeout=5400),
+    # exh_sym7 (thorough only: all 2^21 graphs on 7 vertices) runs in the plain single-thread job only; it is ~1.3e7 aggregations,
+    # too slow under ASan, and the 6-vertex space already runs there.
+    js = [job('interp-plain-t1', 'c04', 'plain', threads=1, shards=8 if q else 14, timeout=3600 if q else 7200),
+          job('interp-asan-t1', 'c04', 'asan', threads=1, shards=8, args=['--sub', SMALL], timeout=5400),
           job('interp-plain-t4', 'c04', 'plain', threads=4, args=['--sub', RANDOM], timeout=3600)]
     if not q:
         js += [job('interp-plain-t8', 'c04', 'plain', threads=8, args=['--sub', RANDOM], timeout=3600),
@@ -37,13 +41,13 @@ def c04_jobs(tier):
 
 PROPS['C04'] = dict(
     level='exploration', jobs=c04_jobs,
-    rule='exhaustive: every symmetric graph on 6 vertices (2^15) and every directed pattern on 4 vertices (2^12), each with three value classes '
+    rule='exhaustive: every symmetric graph on 6 vertices (2^15; thorough: also 7 vertices, 2^21) and every directed pattern on 4 vertices (2^12), each with three value classes '
          '(M-matrix with zero row sums, mixed-sign, positive off-diagonals only) and eps_strong in {0, .08, .25, .5}, 512 patterns per recorded case; '
          'random: G1 grids, G2 graphs, G3 convection-diffusion (structurally non-symmetric), G5 Kronecker / punched block matrices b=2..4, '
          'null spaces none / constants / rigid-body modes / random (1..6 vectors), relax / spectral-radius / truncation settings drawn per case. '
          'A pattern is non-trivial when it has at least one edge; a random case always is (n >= 8). distinct = distinct (sub-check, descriptor) hash.',
-    exhaustive_note='exh_sym6 (all 2^15 symmetric 6-vertex graphs x 3 value classes x 4 eps_strong), exh_dir4 (all 2^12 directed 4-vertex patterns x 3 x 4)',
-    min_nontrivial=dict(quick=100000, thorough=100000),
+    exhaustive_note='exh_sym6 (all 2^15 symmetric 6-vertex graphs x 3 value classes x 4 eps_strong), exh_dir4 (all 2^12 directed 4-vertex patterns x 3 x 4); thorough tier also exh_sym7 (all 2^21 symmetric 7-vertex graphs x 3 value classes x eps_strong {.08, .25})',
+    min_nontrivial=dict(quick=400000, thorough=12000000),
     assumptions=COMMON_ASSUME + ['diagonal entries are stored and positive (lifting oracle); near-null-space blocks have full column rank except where stated'],
     technique='invariant monitor over the public aggregate classes (partition, contiguity, documented strong-coupling predicate), lifting differential '
               'coarsen(A (x) I_b, b) == lift(coarsen(A)) bitwise for aggregates, aggregation, smoothed aggregation and energy-min SA, long-double reference '
